@@ -557,7 +557,7 @@ func (d *Decoder) LoadParityData() error {
 	for _, file := range parityFiles {
 		for exponent, packet := range file.recoveryPackets {
 			if int(exponent) >= len(parityShards) {
-				parityShards = append(parityShards, make([][]byte, int(exponent+1)-len(parityShards))...)
+				parityShards = append(parityShards, make([][]byte, int(exponent)+1-len(parityShards))...)
 			}
 			parityShards[exponent] = packet.data
 		}
